@@ -316,6 +316,10 @@ enum Form {
     Inline,
     Named,
     LetBound,
+    /// the named constraint in parentheses: `let x :: (cname) = ..`
+    NamedGrouped,
+    /// the named constraint of a tuple field: `{f :: cname = ..}`
+    NamedField,
 }
 
 #[derive(Clone, Copy, PartialEq, Debug)]
@@ -354,6 +358,8 @@ fn program(c: &Constraint, v: &GVal, form: Form, via: Via) -> String {
     match form {
         Form::Inline => s.push_str(&format!("let x :: {} = {};\n", cs, value)),
         Form::Named => s.push_str(&format!("constraint cname = {};\nlet x :: cname = {};\n", cs, value)),
+        Form::NamedGrouped => s.push_str(&format!("constraint cname = {};\nlet x :: (cname) = {};\n", cs, value)),
+        Form::NamedField => s.push_str(&format!("constraint cname = {};\nlet x = {{f :: cname = {}}};\n", cs, value)),
         Form::LetBound => s.push_str(&format!("let Exemplar = {};\nlet x :: Exemplar = {};\n", cs, value)),
     }
     s
@@ -387,8 +393,8 @@ impl C06 {
     fn check(&mut self, c: &Constraint, v: &GVal, via: Via, boundary: bool) -> Outcome {
         let want = conforms(c, v);
         let forms: Vec<Form> = match c {
-            Constraint::Exemplar(_) => vec![Form::Inline, Form::Named, Form::LetBound],
-            Constraint::Arms(_) => vec![Form::Inline, Form::Named],
+            Constraint::Exemplar(_) => vec![Form::Inline, Form::Named, Form::LetBound, Form::NamedGrouped],
+            Constraint::Arms(_) => vec![Form::Inline, Form::Named, Form::NamedGrouped],
         };
         let rendered = format!("constraint: {}\nvalue: {} (written as {:?})\nexpected: {}", render_constraint(c), v.show(), via, match want { Some(true) => "builds", Some(false) => "is rejected", None => "unstated" });
         let mut o = Outcome::pass(rendered.clone());
